@@ -24,16 +24,17 @@ type File struct {
 
 // Spec is the run spec of SIM-LOADER.
 type Spec struct {
-	Marker   string             `json:"marker"`
-	RootForm string             `json:"root_form"` // data | reader | data_path_abs | data_path_http | file_rel | file_abs | file_url | http | https
-	Reader   string             `json:"reader"`    // func | default
-	External bool               `json:"external"`  // IsExternalRefsAllowed
-	Reuse    bool               `json:"reuse,omitempty"`
-	MapSeed  uint64             `json:"map_seed,omitempty"` // 0 = sorted map iteration inside the loader; else seeded permutation
-	Files    []File             `json:"files"`
-	Decoys   []string           `json:"decoys,omitempty"`  // paths of files nothing refers to
-	Faults   []simenv.ReadFault `json:"faults,omitempty"`  // Loc = "file:<index>"
-	Changed  []int              `json:"changed,omitempty"` // file indices whose second read returns different content
+	Marker     string             `json:"marker"`
+	RootForm   string             `json:"root_form"` // data | reader | data_path_abs | data_path_http | file_rel | file_abs | file_url | http | https
+	Reader     string             `json:"reader"`    // func | default
+	External   bool               `json:"external"`  // IsExternalRefsAllowed
+	Reuse      bool               `json:"reuse,omitempty"`
+	ThenMemory any                `json:"then_memory,omitempty"` // a document without external references loaded from memory afterwards on the same Loader
+	MapSeed    uint64             `json:"map_seed,omitempty"`    // 0 = sorted map iteration inside the loader; else seeded permutation
+	Files      []File             `json:"files"`
+	Decoys     []string           `json:"decoys,omitempty"`  // paths of files nothing refers to
+	Faults     []simenv.ReadFault `json:"faults,omitempty"`  // Loc = "file:<index>"
+	Changed    []int              `json:"changed,omitempty"` // file indices whose second read returns different content
 }
 
 var plural = map[string]string{
@@ -345,6 +346,12 @@ func Gen(seed uint64, prop, tier string) *Spec {
 		s.Files = append(s.Files, f)
 	}
 	for i, f := range s.Files {
+		if i == 0 && (s.RootForm == "data" || s.RootForm == "reader") {
+			// a root loaded from memory has no location: nothing refers back into "its file"
+			// (its storage copy would be a second, different document whose working-directory-relative
+			// references dangle; excluded from the workload, listed in the evidence)
+			continue
+		}
 		switch {
 		case f.Kind == "whole":
 			for _, k := range kinds {
@@ -400,6 +407,23 @@ func Gen(seed uint64, prop, tier string) *Spec {
 	}
 	if r.Chance(1, 8) && len(s.Files) > 1 {
 		s.Changed = append(s.Changed, r.Range(0, len(s.Files)-1))
+	}
+	if r.Chance(1, 5) {
+		// internal references only; sometimes one that dangles here but names a component the earlier root has
+		sch := map[string]any{"A": map[string]any{"type": "object", "properties": map[string]any{"b": map[string]any{"$ref": "#/components/schemas/B"}}}, "B": map[string]any{"type": "string"}}
+		if r.Bool() {
+			sch["C"] = map[string]any{"$ref": "#/components/schemas/Tschema"}
+		}
+		if r.Bool() {
+			sch["D"] = map[string]any{"type": "array", "items": map[string]any{"$ref": "#/components/parameters/Tparameter/schema"}}
+		}
+		s.ThenMemory = map[string]any{"openapi": "3.0.3", "info": map[string]any{"title": "mem", "version": "1"}, "paths": map[string]any{}, "components": map[string]any{"schemas": sch}}
+	}
+	// path-item files that carry nothing but a summary / description
+	for i := range s.Files {
+		if s.Files[i].Kind == "single:pathItem" && r.Chance(1, 3) {
+			s.Files[i].Doc = map[string]any{"summary": "only a summary", "description": "and a description"}
+		}
 	}
 	return s
 }
